@@ -132,6 +132,10 @@ func (e *ExpandedNodeID) HasServerIndex() bool {
 	return e.NodeID.EncodingMask()>>6&0x1 == 1
 }
 
+// nsuUnescaper replaces the escape sequences of the reserved characters
+// in the namespace uri of the text form of an expanded node id.
+var nsuUnescaper = strings.NewReplacer("%3B", ";", "%3b", ";", "%25", "%")
+
 // ParseExpandedNodeID returns a node id from a string definition of the format
 // '{ns,nsu}=<namespace>;{s,i,b,g}=<identifier>'.
 //
@@ -173,7 +177,9 @@ func ParseExpandedNodeID(s string, ns []string) (*ExpandedNodeID, error) {
 			return nil, errors.Errorf("namespace urls require a server NamespaceArray")
 		}
 
-		nsuval := strings.TrimPrefix(nsval, "nsu=")
+		// the reserved characters ';' and '%' of a namespace uri are
+		// escaped in the text form. Part 6, 5.3.1.10
+		nsuval := nsuUnescaper.Replace(strings.TrimPrefix(nsval, "nsu="))
 		ok := false
 		for id, uri := range ns {
 			if uri == nsuval {
